@@ -85,7 +85,17 @@ def node_level(ck, tier):
                 arrived = [g]
                 fail_at = len(deliveries) - 1 if trial % 3 == 2 else None      # a storage failure while the LAST block (the one
                 #                                                                that overtakes) is handled: fork choice is not storage
+                import mutators as _mut
                 for di_, nd in enumerate(deliveries):
+                    if di_ == len(a) + 1 and trial % 3 != 2:
+                        # between the deliveries: a relayed block that passes the stand-alone checks but breaks a rule in
+                        # state (refused): the competing tip that arrived before must survive it
+                        cur = [x for x in arrived if x.id == bytes(sn.lp().chain_manager.coinstate.current_chain_hash)][0]
+                        bad_ = [c for c in _mut.mutants(tg, cur, rng, tags=('C02',)) if c['label'] == 'reward-plus-one']
+                        if bad_:
+                            net.clock.t = max(net.clock.t, bad_[0]['now'])
+                            sn.deliver(rng.randrange(2), M.DataMessage(M.DATA_BLOCK, bad_[0]['block']))
+                            ck.count('node-level/rule-breaking-block-between-deliveries')
                     if di_ == fail_at:
                         import sqlite3
                         st_ = sn.node.store
@@ -139,6 +149,46 @@ def miner_level(ck, tier):
                          'block), %d arrived block(s) are missing from the served chain state'
                          % (facts['k_between'], 'the found block' if facts['served_head'] == facts['found'] else 'another block',
                             len(missing)), facts['replay'])
+
+
+def side_tip_then_found(ck, tier):
+    """the miner has fetched work; a relayed block becomes a second tip WITHOUT moving the head; the miner keeps asking for
+    work and finds a block on the head: every arrived block is served, the tips are the childless ones"""
+    import check_C12
+    import nodeharness
+    import simnet
+    from skepticoin.networking import messages as M
+    rng = ck.rng
+    keys = chaingen.Keys()
+    with chaingen.Env(period=50) as env:
+        tg = chaingen.TreeGen(env, keys, rng)
+        n = tg.genesis
+        for _ in range(3):
+            n = tg.extend(n, txs=[], fees=0, dt=100)
+        main = list(tg.nodes)
+        with simnet.Net(seed=rng.getrandbits(30), t0=n.view.time + 50) as net:
+            sn = nodeharness.SingleNode(net, chaingen.impl_state_from(main), [m.block for m in main[1:]], npeers=2)
+            sn.new_messages()
+            side = tg.extend(main[-2], txs=[], fees=0, dt=101)           # sibling of the head
+
+            def relay_side():
+                net.clock.t = max(net.clock.t, side.view.time + 1)
+                sn.deliver(1, M.DataMessage(M.DATA_BLOCK, side.block))
+            found = check_C12.mine_one(sn, net, keys, tg, n, after_watcher=relay_side)
+            if found is None:
+                return
+            cs = sn.lp().chain_manager.coinstate
+            arrived = main + [side, found]
+            head, tips, _idx = impl_observe(cs)
+            ehead, etips, _ = expected(arrived)
+            ck.case(('side-tip-then-found',), kind='node-level/side-tip-then-found-block')
+            missing = [x for x in arrived if x.id not in set(bytes(h) for h in cs.block_by_hash.keys())]
+            if missing or head != ehead or tips != etips:
+                ck.violation('node-drops-valid-block' if missing else 'tips-not-childless-set',
+                             'arrivals: work request | relayed sibling of the head (second tip, head unchanged) | found block on the '
+                             'head: %d arrived block(s) are missing from the served chain state, served head %s, tips %s'
+                             % (len(missing), 'right' if head == ehead else 'wrong', 'right' if tips == etips else 'wrong'),
+                             {'node_level': True, 'history': 'work request | side tip relayed | found block'})
 
 
 def run(tier, seed):
@@ -230,6 +280,13 @@ def run(tier, seed):
     except Exception:
         import traceback
         ck.disagree('node-level scenario crashed: %s' % traceback.format_exc()[-500:], {})
+    try:
+        side_tip_then_found(ck, tier)
+    except Exception:
+        import traceback
+        tb = traceback.format_exc()
+        if 'could not mine a block' not in tb:
+            ck.disagree('side-tip scenario crashed: %s' % tb[-500:], {})
     try:
         miner_level(ck, tier)
     except Exception:
